@@ -56,7 +56,7 @@ def replay_store(ctx, csv, d, tmproot, k):
                     else:
                         csv.write_csv(df, fname, {"doc": "d%d" % ndoc}, src, compress=(mode == "compress"),
                                       write_sys_info=bool(k % 2))
-                except ValueError:
+                except Exception:
                     pass        # member already in archive: the model records ok = FALSE, the state is unchanged
             else:
                 try:
